@@ -204,13 +204,15 @@ func runSolver(s solverSpec, file string, timeout int) (verdict, output string, 
 	out, _ := cmd.CombinedOutput()
 	secs = time.Since(t0).Seconds()
 	output = string(out)
-	line := strings.TrimSpace(strings.SplitN(output, "\n", 2)[0])
-	switch line {
-	case "unsat", "sat", "unknown":
-		verdict = line
-	case "timeout":
-		verdict = "timeout"
-	default:
+	verdict = ""
+	for _, line := range strings.Split(output, "\n") {
+		line = strings.TrimSpace(line)
+		if line == "unsat" || line == "sat" || line == "unknown" || line == "timeout" {
+			verdict = line
+			break
+		}
+	}
+	if verdict == "" {
 		if strings.Contains(output, "timeout") || strings.Contains(output, "interrupted") {
 			verdict = "timeout"
 		} else {
